@@ -382,7 +382,13 @@ func (r *run) step(t fataler, spec cmdSpec, plan map[string]outcome) {
 	}
 
 	// ---- drive the server
-	if err := r.raw.Send(tag + " " + spec.text + "\r\n"); err != nil {
+	wire := tag + " " + spec.text + "\r\n"
+	if expectClose {
+		// a command pipelined in the same segment behind a connection-ending
+		// command must never be processed
+		wire += "zz LOGIN user pass\r\n"
+	}
+	if err := r.raw.Send(wire); err != nil {
 		r.fail(t, "send %s: %v", spec.name, err)
 	}
 	var lines []*tok.Line
@@ -450,8 +456,7 @@ func (r *run) step(t fataler, spec cmdSpec, plan map[string]outcome) {
 		r.isTLS = true
 	}
 	if expectClose {
-		// nothing further may be answered: send a NOOP and expect EOF
-		r.raw.Send("zz NOOP\r\n")
+		// nothing further may be answered: expect EOF
 		rest, err := r.raw.Drain()
 		if err != nil {
 			r.fail(t, "after %s the server did not close the connection: %v", spec.name, err)
@@ -469,6 +474,9 @@ func (r *run) step(t fataler, spec cmdSpec, plan map[string]outcome) {
 		}
 		if !r.raw.WaitServerClosed(5 * time.Second) {
 			r.fail(t, "after %s the server kept its end of the connection open", spec.name)
+		}
+		if got := methods(r.core.Calls()); fmt.Sprint(got) != fmt.Sprint(wantCalls) {
+			r.fail(t, "a command pipelined behind %s reached the backend: calls %v, expected %v", spec.name, got, wantCalls)
 		}
 		return
 	}
